@@ -8,9 +8,9 @@ CLAIMED = {
         "lengths, and segmentation independence of the incremental reader for every arrival history (induction over the chunk list); "
         "constants and the header-fetch method are regenerated from stream.py on every run; model tied to the code by byte-exact "
         "correspondence runs on the real MysqlStream and by the whole-server conversation under every cut.",
-   design="7/C04",
+   design="6/C04",
    note="Trusted: Coq kernel, translator, correspondence harness, asyncio.StreamReader semantics as modelled (hmode), fake writer. "
-        "TLS record processing is runtime; the TLS hand-over is a recorded open finding (see DESIGN.md).",
+        "TLS record processing is the ssl module's; the TLS hand-over is probed over loopback sockets, open finding tls-hello-with-sslrequest.",
    technique="Coq proof (induction over arrival histories) + translator facts + vm_compute correspondence"),
  "C18": dict(
    text="Coq theorems over the registry model (Model/ConnId.v) for every sequence width W>0 and prefix: a fresh id exists whenever "
@@ -18,7 +18,7 @@ CLAIMED = {
         "distinct, all with the configured prefix' holds after every add/remove history (induction over the op list), a full registry "
         "refuses and recovers after any removal, ids are 32-bit with upper half server_id mod 2^16; widths, the server-id default rule "
         "and the function skeletons are regenerated from control.py/utils.py/server.py; op-by-op correspondence with LocalControl.",
-   design="7/C18",
+   design="6/C18",
    note="Trusted: Coq kernel, translator, correspondence harness. random.randint for an unconfigured server id is only range-checked; "
         "the id seen in the handshake / CONNECTION_ID() / KILL is checked at the wire level by the harness (test, not theorem).",
    technique="Coq proof (invariant by induction over add/remove histories, pigeonhole for termination) + translator facts + vm_compute correspondence"),
@@ -29,7 +29,7 @@ CLAIMED = {
         "equals filling the holes in order with everything else byte-identical; binary parameter decoding is the inverse of the "
         "client-side encoding for every well-formed parameter list. Function shapes regenerated from prepared.py/packets.py; "
         "byte-exact correspondence with parse_com_stmt_execute and the wire (long data, repeated executions).",
-   design="7/C06",
+   design="6/C06",
    note="Trusted: Coq kernel, translator, harness; text decoding (latin1 in the byte-exact runs) and repr(float) are outside the model; "
         "lex_literal is my reading of MySQL's lexer, cross-checked against sqlglot's tokenizer on every generated literal.",
    technique="Coq proof (structural induction over texts/templates/parameter lists) + translator facts + vm_compute correspondence"),
@@ -38,7 +38,7 @@ CLAIMED = {
         "string parse_com_query(encode_com_query attrs sql) = (sql, dict attrs); without the capability every payload is returned "
         "untouched as SQL; COM_STMT_EXECUTE with m positional parameters and any attributes yields exactly those m values and that "
         "attribute dict (NULL bitmap proved for every count). Correspondence with the real parsers on generated packets and the wire.",
-   design="7/C17",
+   design="6/C17",
    note="Trusted: Coq kernel, translator, harness; struct IEEE unpacking and text decoding are CPython's (latin1 = identity in the runs).",
    technique="Coq proof (round-trip by induction over the parameter list, bitmap lemma) + translator facts + vm_compute correspondence"),
  "C13": dict(
@@ -51,7 +51,7 @@ CLAIMED = {
         "COM_INIT_DB / USE / COM_CHANGE_USER / queries the default database is the one the client selected last. Tie: labelled "
         "statement grammar through the real connection (COM_QUERY and prepare/execute, query attributes), application-call log and "
         "results against labels and model.",
-   design="7/C13",
+   design="6/C13",
    note="Trusted: Coq kernel, translator, harness; SQL text -> (kind, tables) is sqlglot's parser + utils.find_tables (exercised on "
         "every generated statement, not modelled). DATABASE()/VERSION() are not generated: sqlglot 30 parses them into nodes the "
         "library's function table does not know (pre-existing failures of the pinned suite).",
@@ -66,7 +66,7 @@ CLAIMED = {
         "reachable store); after any history the time zone parses and the connection's character sets exist; accepted time zones are "
         "offsets below one day. Tie: programs in every accepted spelling through the real Session with every variable read back "
         "after every statement, compared with the model; NOW()/CURDATE()/CURTIME() under a frozen clock; handshake version.",
-   design="7/C14",
+   design="6/C14",
    note="Trusted: Coq kernel, translator, harness; SQL text -> statement structure is sqlglot + setitem_kind/expression_to_value "
         "(exercised by every spelling, not modelled); strftime/datetime.timezone are CPython's. The coercion is the code's "
         "(bool('OFF') is True for a QUOTED 'OFF'): recorded as an observation in the evidence, the property fixes no coercion function.",
@@ -81,7 +81,7 @@ CLAIMED = {
         "is decoded with the state before command k. Table facts (every collation belongs to a catalogue character set, defaults map "
         "back, ids unique) by computation over the regenerated tables. Tie: codecs against an independently written MySQL->codec "
         "table over each repertoire; histories on the real connection with a reference client, compared with the model.",
-   design="7/C15",
+   design="6/C15",
    note="Trusted: Coq kernel, translator, harness; the codecs are CPython's (parameters of the theorem). MySQL's latin1 is cp1252 "
         "while library and reference use ISO-8859-1: the 27 differing code points are not sampled (observation in the evidence). "
         "utf16/utf32/ucs2 occur as column / results character sets only.",
@@ -94,7 +94,7 @@ CLAIMED = {
         "declared table / database exactly once (NoDup + membership both ways). Function bodies of schema.py/session.py regenerated as "
         "facts. Tie: LIKE exhaustively over short patterns x names on like_to_regex and on SHOW VARIABLES LIKE, catalog queries on random "
         "depth-2/3/4 mappings against the model, INFORMATION_SCHEMA.COLUMNS exactly-once, COM_FIELD_LIST at the wire.",
-   design="7/C16",
+   design="6/C16",
    note="Trusted: Coq kernel, translator, harness; Python re as the regex engine (modelled by the denotational match relation), "
         "sqlglot's executor evaluating the info-schema queries (exercised by the correspondence, not modelled).",
    technique="Coq proof (induction over patterns / nested mappings) + translator facts + vm_compute correspondence"),
@@ -105,7 +105,7 @@ CLAIMED = {
         "of the loops are regenerated from types.py/packets.py/prepared.py.  Tie: every truncation and field mutation of valid packets "
         "through the real parsers vs the model (result class and fields) under a watchdog, scaling probes of every variable-length "
         "field, and hostile packets on a live server (one ERR and in step, or close; witness connection served; registry released).",
-   design="7/C07",
+   design="6/C07",
    note="Partial: the connection-level half (one ERR / close) is checked on the implementation here and proved over the connection "
         "machine in C03/C10; work inside sqlglot and the codecs is not bounded by this proof.",
    technique="Coq proof (fuel-exclusion lemmas by induction on fuel) + translator facts + vm_compute correspondence + watchdog/scaling probes"),
@@ -117,7 +117,7 @@ CLAIMED = {
         "for a refused or aborted COM_CHANGE_USER (only session.close follows). Tie: skeletons of authenticate/_start/"
         "handle_change_user regenerated; random walks with scripted identity providers/plugins replayed on the model; oracle on the "
         "implementation: no session call / non-ERR packet after a refused exchange.",
-   design="7/C01",
+   design="6/C01",
    note="Partial: the theorems quantify over all continuations but over an enumerated family of exchange prefixes (computed in Coq); the "
         "invariant over arbitrary histories is carried by the lock-step runs. Plugins are arbitrary decision sequences (C02 decides "
         "what the built-in plugins decide).",
@@ -128,7 +128,7 @@ CLAIMED = {
         "Model/Resp.v (written from the protocol documentation); a response cut at ANY point and completed by one ERR is accepted; "
         "nothing can follow a complete response; the no-reply commands write nothing. Tie: lock-step replay of random command "
         "programs on the model, and every implementation response is run through the grammar inside Coq.",
-   design="7/C03",
+   design="6/C03",
    note="Partial: the composition 'between two reads the machine emits exactly the plan packets plus at most one ERR' is validated by the "
         "lock-step runs, not yet a theorem over all event lists. Packet contents beyond kind/flags/counts are C05/C16.",
    technique="Coq proof (induction over column/row lists, automaton sink-state argument) + translator facts + lock-step correspondence"),
@@ -138,7 +138,7 @@ CLAIMED = {
         "finished connection is the identity; whatever kills arrive in any order session.close happens at most once (C10 invariant). "
         "Computed in Coq: a kill of either kind before every event of a reference conversation. Tie: one and two kills at every "
         "script position of a reference program on the real connection + random walks, replayed on the model; grammar oracle.",
-   design="7/C09",
+   design="6/C09",
    note="Known open finding (kill-after-terminal-packet) recorded with its refutation theorem c09_kill_query_after_terminal_packet_refuted. "
         "Socket back-pressure is the fake writer's paused flag.",
    technique="Coq proof (state-independent lemmas + invariant by induction over event lists + vm_compute placements) + lock-step correspondence"),
@@ -149,7 +149,7 @@ CLAIMED = {
         "alive the count is 0 outside and 1 inside the finally block; writer.close and control.remove are emitted exactly once, "
         "exactly when the task ends. Tie: life-cycle skeletons regenerated; disconnect / failure / exception at every script position "
         "of a reference conversation and pairs, replayed on the model; life-cycle oracle on the implementation.",
-   design="7/C10",
+   design="6/C10",
    note="Fuel exhaustion of the model (state Stuck) is covered by a weaker invariant (close at most once); that Stuck is never reached is "
         "validated by the correspondence runs, not proved. 'Socket closed' is writer.close() on the fake writer.",
    technique="Coq proof (per-frame invariant lifted through throw/exec_op/end_plan, induction on fuel and over the event list) + lock-step correspondence"),
@@ -159,7 +159,7 @@ CLAIMED = {
         "0..min(total requested, rows)-1 of the result; last-row-sent is flagged exactly on a fetch that could not be filled; the "
         "packets form a response of the grammar. Tie: exhaustive n<=4/6 x all fetch-size sequences, random programs with several "
         "statements, reset / re-execute / close anywhere, replayed on Model/Conn.v.",
-   design="7/C11",
+   design="6/C11",
    note="Rows are recognised by the index the scripted source writes into them; independence of cursors of different statements is "
         "validated by the lock-step runs.",
    technique="Coq proof (induction over the cursor's item list and over the list of fetch sizes) + translator facts + lock-step correspondence"),
@@ -171,7 +171,7 @@ CLAIMED = {
         "check: every module-/class-level mutable container is listed and no function writes to one; stream, session (own variable "
         "store) and connection (own statement table) are created per socket. Differential runs: K=2..4 stateful programs under "
         "PRNG schedules vs. the same programs alone, byte for byte.",
-   design="7/C08",
+   design="6/C08",
    note="Aliasing through objects the application injects is outside the library. lru_cache on parse_timezone is a memo of a pure function. "
         "The audit is syntactic (ast): writes through aliases it cannot resolve are covered only by the differential runs.",
    technique="Coq proof (frame + projection by induction over interleavings) + translator shared-state audit + differential schedules"),
@@ -182,7 +182,7 @@ CLAIMED = {
         "suspends is interrupted by a cooperative yield after at most BATCH+1 rows from every position. B, BATCH and the "
         "flush rule are regenerated from stream.py/utils.py. Tie: pause/resume before every event of streamed results in the three "
         "protocols with instrumented sources, replayed on Model/Conn.v incl. its pulled/handed counters; cross-connection PING.",
-   design="7/C12",
+   design="6/C12",
    note="Open finding inferred-null-column-peek (bare column names with an always-NULL column: unbounded peek). Transport buffering after "
         "writer.write is not modelled; 'accepts' means drain() returns. The composition over whole executions is validated by lock-step.",
    technique="Coq proof (per-operation invariants, induction over the source's item list, modular arithmetic for the yield bound) + lock-step correspondence"),
@@ -195,7 +195,7 @@ CLAIMED = {
         "and the nonce alphabet regenerated from auth.py/utils.py; password_matches run with a Gallina SHA-1 (checked against "
         "hashlib) on accounts x nonces x responses incl. every single-bit corruption and truncation; the four routes through the "
         "real connection.",
-   design="7/C02",
+   design="6/C02",
    note="Freshness of nonces rests on random.SystemRandom (distinctness is a test). Clear-password / no-login decisions are checked on the "
         "implementation; 'user = the identity the plugin vouched for' is checked through the four routes.",
    technique="Coq proof over an abstract hash (algebra of XOR, collision argument) + translator facts + vm_compute correspondence with a Gallina SHA-1"),
@@ -207,7 +207,7 @@ CLAIMED = {
         "type inference by peeking preserves the row list and the column count. Tie: encoder tables and bodies regenerated from "
         "results.py/packets.py; every type x domain values byte-for-byte against the model, the Coq decoders applied to the "
         "implementation's bytes, rows with every NULL pattern, inference on random shapes with duplicate names.",
-   design="7/C05",
+   design="6/C05",
    note="repr(float), IEEE packing and the character-set codecs are CPython's (passed through). Text TIME decoding and date/datetime decoding "
         "are validated by the correspondence runs (decoders evaluated in Coq on the implementation's bytes), not yet theorems.",
    technique="Coq proof (arithmetic of div/mod, two's complement, bitmap packing, induction over rows) + translator facts + vm_compute correspondence"),
